@@ -521,3 +521,163 @@ K("c16k-add-rename-working-copy",
 K("c16k-copy-explicit-class",
   ("data", "        new = self.__class__(_is_empty_instance=True)",
    "        new = type(self)(_is_empty_instance=True)"))
+
+
+# ==================================================== R08 / R13 typestate ===
+def _drop_nth(texts, mod, anchor_start, anchor_end, needle, n):
+    """Delete the n-th occurrence of `needle` between two anchors."""
+    src = texts[mod]
+    a = src.find(anchor_start)
+    b = src.find(anchor_end, a)
+    if a < 0 or b < 0:
+        raise LookupError(anchor_start)
+    seg = src[a:b]
+    idx = -1
+    for _ in range(n + 1):
+        idx = seg.find(needle, idx + 1)
+        if idx < 0:
+            raise LookupError(needle)
+    seg = seg[:idx] + seg[idx + len(needle):]
+    texts[mod] = src[:a] + seg + src[b:]
+    return texts
+
+
+_ADD0 = "    def __add__(self, other) -> \"TimePoint\":"
+_ADD1 = "    def _copy(self) -> \"TimePoint\":"
+_TICK = "            new._tick_over()\n"
+for _i, _nm in enumerate(["seconds", "minutes", "hours", "days"]):
+    B("c01-add-drop-tick-%s" % _nm, ["C01"], ["R08"],
+      (lambda texts, _i=_i: _drop_nth(texts, "data", _ADD0, _ADD1, _TICK, _i)),
+      canary=(_i == 2))
+_TR0 = "    def add_truncated(self,"
+_TR1 = "    def __add__(self, other) -> \"TimePoint\":"
+_TTICK = "                new._tick_over()\n"
+for _i, _nm in enumerate(["second", "minute", "hour", "weekday", "dom",
+                          "doy", "week"]):
+    B("c20-search-drop-tick-%s" % _nm, ["C20"], ["R08"],
+      (lambda texts, _i=_i: _drop_nth(texts, "data", _TR0, _TR1, _TTICK, _i)),
+      canary=(_i == 1))
+B("c05-clamp-outside-month-loop", ["C05"], ["R08"],
+  ("data", "            if new._day_of_month > max_day_in_new_month:\n"
+           "                # For example, when 31 March + 1 month = 30 April.\n"
+           "                new._day_of_month = max_day_in_new_month\n"
+           "        new._tick_over()",
+   "        if new._day_of_month > max_day_in_new_month:\n"
+   "            # For example, when 31 March + 1 month = 30 April.\n"
+   "            new._day_of_month = max_day_in_new_month\n"
+   "        new._tick_over()"), canary=True)
+B("c05-month-clamp-dropped", ["C05"], ["R08"],
+  ("data", "            if new._day_of_month > max_day_in_new_month:\n"
+           "                # For example, when 31 March + 1 month = 30 April.\n"
+           "                new._day_of_month = max_day_in_new_month\n", ""))
+B("c05-year-clamp-ordinal-dropped", ["C05"], ["R08"],
+  ("data", "                if max_days_in_year < new._day_of_year:\n"
+           "                    new._day_of_year = max_days_in_year\n",
+   "                pass\n"))
+B("c05-year-clamp-week-dropped", ["C05"], ["R08"],
+  ("data", "                if max_weeks_in_year < new._week_of_year:\n"
+           "                    new._week_of_year = max_weeks_in_year\n",
+   "                pass\n"))
+B("c05-years-before-months", ["C05"], ["R08"],
+  (lambda texts: _move_block_after(
+      texts, "data",
+      "        if duration._months:\n"
+      "            # This is the dangerous one...\n"
+      "            new = new.add_months(duration._months)\n",
+      "                    new._week_of_year = max_weeks_in_year\n")))
+B("c05-week-restore-dropped", ["C05", "C01"], ["R13"],
+  ("data", "        if was_week_date:\n            new = new.to_week_date()\n", ""),
+  canary=True)
+B("c05-ordinal-restore-dropped", ["C05", "C01"], ["R13"],
+  ("data", "        if was_ordinal_date:\n            new = new.to_ordinal_date()\n", ""))
+B("c05-restore-flags-swapped", ["C05"], ["R13"],
+  ("data", "            if new.get_is_ordinal_date():\n                was_ordinal_date = True\n"
+           "            if new.get_is_week_date():\n                was_week_date = True",
+   "            if new.get_is_ordinal_date():\n                was_week_date = True\n"
+   "            if new.get_is_week_date():\n                was_ordinal_date = True"))
+B("c06-to-time-zone-goes-calendar", ["C06"], ["R13"],
+  ("data", "        new = self + (dest_time_zone - self._time_zone)\n",
+   "        new = self.to_calendar_date() + (dest_time_zone - self._time_zone)\n"))
+B("c03-to-ordinal-keeps-week-slots", ["C03"], ["R13"],
+  ("data", "        new._year, new._day_of_year = self.get_ordinal_date()\n"
+           "        new._month_of_year, new._day_of_month = (None, None)\n"
+           "        new._week_of_year, new._day_of_week = (None, None)",
+   "        new._year, new._day_of_year = self.get_ordinal_date()\n"
+   "        new._month_of_year, new._day_of_month = (None, None)"),
+  canary=True)
+B("c03-week-getter-wrong-converter", ["C03"], ["R13"],
+  ("data", "            return get_week_date_from_ordinal_date(self._year,\n"
+           "                                                   self._day_of_year)",
+   "            return get_week_date_from_calendar_date(self._year, 1,\n"
+   "                                                    self._day_of_year)"))
+B("c03-dispatch-args-swapped", ["C03"], ["R13"],
+  ("data", "            return get_calendar_date_from_week_date(self._year,\n"
+           "                                                    self._week_of_year,\n"
+           "                                                    self._day_of_week)",
+   "            return get_calendar_date_from_week_date(self._year,\n"
+   "                                                    self._day_of_week,\n"
+   "                                                    self._week_of_year)"))
+B("c03-to-week-tuple-order", ["C03"], ["R13"],
+  ("data", "        new._year, new._week_of_year, new._day_of_week = self.get_week_date()",
+   "        new._year, new._day_of_week, new._week_of_year = self.get_week_date()"))
+K("c01k-add-reorder-sec-min-blocks",
+  (lambda texts: _swap_blocks(
+      texts, "data",
+      "        if duration._seconds:\n"
+      "            if new._second_of_minute is None:\n"
+      "                if new._minute_of_hour is None:\n"
+      "                    new._hour_of_day += (\n"
+      "                        duration._seconds / float(CALENDAR.SECONDS_IN_HOUR))\n"
+      "                else:\n"
+      "                    new._minute_of_hour += (\n"
+      "                        duration._seconds / float(CALENDAR.SECONDS_IN_MINUTE))\n"
+      "            else:\n"
+      "                new._second_of_minute += duration._seconds\n"
+      "            new._tick_over()\n"
+      "        # FIXME: self._tick_over() broken for truncated TimePoints: issue #168\n",
+      "        if duration._minutes:\n"
+      "            if new._minute_of_hour is None:\n"
+      "                new._hour_of_day += (\n"
+      "                    duration._minutes / float(CALENDAR.MINUTES_IN_HOUR))\n"
+      "            else:\n"
+      "                new._minute_of_hour += duration._minutes\n"
+      "            new._tick_over()\n")))
+K("c01k-add-single-final-tick",
+  (lambda texts: _single_tick(texts)))
+K("c05k-drop-final-tick-add-months",
+  ("data", "                new._day_of_month = max_day_in_new_month\n        new._tick_over()\n        if was_ordinal_date:",
+   "                new._day_of_month = max_day_in_new_month\n        if was_ordinal_date:"),
+  note="after the explicit wrap and clamp nothing is out of range")
+K("c05k-clamp-mirrored-compare",
+  ("data", "            if new._day_of_month > max_day_in_new_month:\n"
+           "                # For example, when 31 March + 1 month = 30 April.",
+   "            if max_day_in_new_month < new._day_of_month:\n"
+   "                # For example, when 31 March + 1 month = 30 April."))
+
+
+def _move_block_after(texts, mod, block, after):
+    src = texts[mod]
+    if src.count(block) != 1 or src.count(after) < 1:
+        raise LookupError(block)
+    src = src.replace(block, "")
+    i = src.find(after) + len(after)
+    texts[mod] = src[:i] + block + src[i:]
+    return texts
+
+
+def _single_tick(texts):
+    """Drop the per-unit _tick_over() calls of __add__ and normalise once
+    after the days block (behaviour-preserving: _tick_over is idempotent
+    and carries all units)."""
+    src = texts["data"]
+    a = src.find(_ADD0)
+    b = src.find("        if duration._months:", a)
+    if a < 0 or b < 0:
+        raise LookupError("__add__")
+    seg = src[a:b]
+    if seg.count(_TICK) != 4:
+        raise LookupError("ticks")
+    seg = seg.replace(_TICK, "")
+    seg += "        new._tick_over()\n"
+    texts["data"] = src[:a] + seg + src[b:]
+    return texts
